@@ -1,6 +1,8 @@
 package eval
 
 import (
+	"reflect"
+
 	"src.elv.sh/pkg/eval/errs"
 	"src.elv.sh/pkg/eval/vals"
 )
@@ -24,11 +26,28 @@ func not(v any) bool {
 
 func is(args ...any) bool {
 	for i := 0; i+1 < len(args); i++ {
-		if args[i] != args[i+1] {
+		if !identical(args[i], args[i+1]) {
 			return false
 		}
 	}
 	return true
+}
+
+// Reports whether a and b have the same identity. Values of slice types (such
+// as styled texts) are identical if they are the same slice. Values of other
+// types that Go cannot compare (such as structs containing slices) are never
+// identical.
+func identical(a, b any) (same bool) {
+	va, vb := reflect.ValueOf(a), reflect.ValueOf(b)
+	if va.IsValid() && vb.IsValid() && va.Type() == vb.Type() && va.Kind() == reflect.Slice {
+		return va.Len() == vb.Len() && va.UnsafePointer() == vb.UnsafePointer()
+	}
+	defer func() {
+		if recover() != nil {
+			same = false
+		}
+	}()
+	return a == b
 }
 
 func eq(args ...any) bool {
